@@ -17,9 +17,10 @@ RULE = ("Space A: every doccomment body of <=N lines over the atom alphabet (one
 
 ATOMS = ["word", "two words.", "#hash", "##", "[br]", "]x", "[", ":field: v", ".. note:: n", " one-space", "  two",
          "    four", "", "trailing  ", "tab\tin", "café → ✓ \U0001F600", "#]", "!?*|`_\\", "]",
-         "e\u0301 \u212b \uf900 \u1100\u1161"]   # not NFC/NFKC-stable: combining mark, compatibility and conjoining code points
+         "e\u0301 \u212b \uf900 \u1100\u1161",   # not NFC/NFKC-stable: combining mark, compatibility and conjoining code points
+         "----", "====", "~~~~~~~~", "....", "####", "  ----  "]     # lines that reST would read as a transition or an underline
 CORE = ["word", "#hash", "[br]", "  two", "", "café → ✓ \U0001F600", ":field: v", "]x", "trailing  ", ".. note:: n",
-        "e\u0301 \u212b \uf900 \u1100\u1161"]
+        "e\u0301 \u212b \uf900 \u1100\u1161", "----", "===="]
 INDENTS = ["", " ", "  ", "    ", "      ", "        ", "\t", "\t\t", " \t"]
 CARRIERS = ["function", "macro", "set", "option", "generic", "add_test", "add_test_pos", "ct_add_test", "ct_add_section",
             "class1", "class2", "class3", "attr1", "attr3", "member1", "member2", "member3", "ctor1", "ctor2",
@@ -178,9 +179,11 @@ def check(job):
         return check_cli(job)
     if mode == "twin":
         return check_twins(job)
-    if mode == "single":
+    if mode in ("single", "gap"):
         _, carrier, body, indent, leader = job
         events, idx = carrier_events(carrier, body)
+        if mode == "gap":
+            events[idx]["docgap"], leader = leader, True
         targets = [(idx, body)]
     else:
         _, c1, c2, b1, b2, indent, leader = job
@@ -205,7 +208,7 @@ def check(job):
                     + ("/module" if "@module" in text else "")) if msgs else None}
 
 
-CLI_NAMES = ["a.cmake", "a.b.cmake", "a.c.cmake", "a-b.cmake", "a_b.cmake", "A.cmake", "a.cmake.cmake", "ab.cmake",
+CLI_NAMES = ["index.cmake", "sub/index.cmake", "a.cmake", "a.b.cmake", "a.c.cmake", "a-b.cmake", "a_b.cmake", "A.cmake", "a.cmake.cmake", "ab.cmake",
              "sub/a.cmake", "sub/a.b.cmake", "sub.cmake", "a/a.cmake"]
 
 
@@ -266,6 +269,13 @@ def run(ctx):
         for b in bodies(core_b, 2 if quick else 3):
             for ind in ("", "  ", "      ", "\t"):
                 jobs.append(("single", carrier, list(b), ind, True))
+    # an ordinary comment (or two) between the doccomment and its command
+    for carrier in CARRIERS:
+        if carrier.startswith("module") or carrier.endswith("impldoc"):
+            continue
+        for gap in ("# cmake-lint: disable=C0103", "#[[ note ]]", "# one\n\n# two"):
+            for ind in ("", "  ", "\t"):
+                jobs.append(("gap", carrier, ["Doc above a comment.", "", "  second"], ind, gap))
     # leaderless form: unindented, lines start with a letter
     letter = ["word", "two words.", "café → ✓", "tab\tin", "trailing  ", "See issue #12 [x] here", "C#-style; a]b"]
     for carrier in CARRIERS:
